@@ -3,7 +3,8 @@ SPEC = {
     "id": "C08",
     "level": "other",
     "sidecars": ["trie_dict", "suffix_trie"],
-    "functions": [S + m for m in ("__init__", "add", "__walk", "split", "extract_suffix", "extract_domain_name", "has_valid_domain_name")],
+    "function_sidecars": {'ural/utils.py:safe_urlsplit': ["utils"]},
+    "functions": ['ural/utils.py:safe_urlsplit'] + [S + m for m in ("__init__", "add", "__walk", "split", "extract_suffix", "extract_domain_name", "has_valid_domain_name")],
     "bounded": ["bcheck.c08"],
     "explanation": (
         "Deductive (all rule sets, all hosts, unbounded; pyvc): the SuffixTrie is verified against an abstract RULE VIEW (ghost Rn = normal / wildcard "
